@@ -63,6 +63,7 @@ fn serialize_range_mappings(sm: &SourceMap) -> Option<String> {
     let mut empty = true;
 
     let mut idx_of_first_in_line = 0;
+    let mut skipped_in_line = 0;
 
     let mut rmi_data = Vec::<u8>::new();
 
@@ -77,13 +78,20 @@ fn serialize_range_mappings(sm: &SourceMap) -> Option<String> {
             prev_line += 1;
             had_rmi = false;
             idx_of_first_in_line = idx;
+            skipped_in_line = 0;
+        }
+
+        // `serialize_mappings` does not emit a segment for a token that repeats its predecessor
+        if idx > idx_of_first_in_line && Some(&token) == sm.get_token(idx - 1).as_ref() {
+            skipped_in_line += 1;
+            continue;
         }
 
         if token.is_range() {
             had_rmi = true;
             empty = false;
 
-            let num = idx - idx_of_first_in_line;
+            let num = idx - idx_of_first_in_line - skipped_in_line;
 
             rmi_data.resize(rmi_data.len() + 2, 0);
 
